@@ -459,3 +459,36 @@ def replay_known(ctx, fmt="stmt", replay_fn=None):
             for feat in f.get("features", []):
                 enable.add(feat)
     return enable
+
+
+def judge_shapes(ctx, which, shapes, nstates=5, fmt="stmt"):
+    """program shapes that belong to listed findings (or used to): each is compiled and judged against the C
+    reference; a failure carries the signature `<which> witness-shape <tag>: <kind>`, which a listed finding matches by
+    prefix - a shape whose finding is repaired simply passes, a shape that fails without a listed finding is a VIOLATION"""
+    from .cref import operands_closure
+    c = boot.compiler(fmt)
+    resolver = diff.make_resolver(c)
+    subs = diff.bundled_subs()
+    for tag, programs in shapes.items():
+        for text in programs:
+            ctx.evaluations += 1
+            st, il = try_compile(c, text)
+            if st != "ok":
+                ctx.count(f"witness-shape {tag}: rejected")
+                continue
+            try:
+                ast = diff.parse_c(text)
+                body = reader.parse_body(il)
+            except Exception as e:
+                ctx.failure(f"{which} witness-shape {tag}: unreadable", {"program": text, "error": str(e)[:200]})
+                continue
+            for stt in diff.simple_states(operands_closure(ast, subs), nstates, 29):
+                r, _ = judge_state(ast, body, stt, resolver, subs)
+                if r is None:
+                    ctx.nontriv(("witness-shape", tag, text, run.h64(stt)))
+                    continue
+                if r[0] == "discard":
+                    ctx.discard(r[1])
+                    continue
+                ctx.failure(f"{which} witness-shape {tag}: {r[0]}", {"program": text, "state": stt, "kind": r[0], "detail": r[1]})
+                break
